@@ -6,6 +6,7 @@ export GOFLAGS=-mod=mod GOPROXY=off GOSUMDB=off GOTOOLCHAIN=local
 mkdir -p bin evidence/work evidence/replay
 if [ -d extract ]; then (cd extract && go build -o ../bin/extract .); fi
 if [ -x bin/extract ]; then bin/extract -repo /repo -out lean/VM/Generated; fi
+python3 tools/gen_swagger_lean.py >/dev/null
 (cd lean && lake build VM driver)
 cp /repo/go.sum harness/go.sum
 (cd harness && go build -tags verif -o ../bin/harness .)
